@@ -7,13 +7,14 @@ TInit == MAInit /\ l = 1
 Ev == TraceLog[l]
 IsEvent(e) == l <= TraceLen /\ Ev.e = e /\ l' = l + 1
 
-TRecv == IsEvent("Recv") /\ Recv(Ev.n, Ev.src, Ev.holder, Ev.id, Ev.qn, Ev.lk, Ev.qt, Ev.tun)
+TRecv == IsEvent("Recv") /\ Recv(Ev.n, Ev.src, Ev.holder, Ev.uid, Ev.id, Ev.qn, Ev.lk, Ev.qt, Ev.tun)
 TAns == IsEvent("Ans") /\ Ans(Ev.dst, Ev.id, Ev.qn, Ev.lk, Ev.qt, Ev.hdr)
 TStepEnd == IsEvent("StepEnd") /\ StepEnd
+TNewSession == IsEvent("NewSession") /\ NewSession(Ev.u)
 TReset == IsEvent("Reset") /\ MAReset
 \* an emitted non-DNS / question-less datagram on the DNS socket has no enabled action (event "Garbage")
 
-TNext == TRecv \/ TAns \/ TStepEnd \/ TReset
+TNext == TRecv \/ TAns \/ TStepEnd \/ TNewSession \/ TReset
 TraceSpec == TInit /\ [][TNext]_tvars
 TraceAccepted ==
     LET d == TLCGet("stats").diameter IN
